@@ -41,6 +41,11 @@ CHECKS = {
    "DESIGN.md section 4 / C06",
    "Inputs are sampled, not enumerated; heap bound has 1 MB slack; ASan only in the thorough tier.",
    "runtime monitoring: hostile-input injection with catch_unwind / watchdog / accounting hooks / counting allocator (+ASan)"),
+ "C15": ("exploration",
+   "Offline-style shadow table over the decoded output of every get_packets_to_send call in simulated lossy sessions: per item last transmission time and acknowledgement state derived from the Ack packets actually delivered; the three clauses (not early, prompt when due and budget left, never after an effective ack) are asserted on virtual time.",
+   "DESIGN.md section 4 / C15",
+   "Promptness uses the budget left after the whole call (weakest necessary condition) and only items the hook still lists as unacknowledged; sender clock = simulator clock.",
+   "runtime monitoring: trace checker over decoded wire events with a shadow retransmission table"),
 }
 
 NOT_YET = {}
